@@ -394,7 +394,7 @@ func c47(r *vkit.Run) {
 		// third family (c47bp.go, own generator stream): close propagation under back-pressure
 		nb := r.N(48, 480)
 		for i := 0; i < nb; i++ {
-			bpCases = append(bpCases, c47BPGen(r.Rng("backpressure", i), n+nf+i, i))
+			bpCases = append(bpCases, c47BPGen(r.Rng("backpressure", i), n+nf+i, i, r.Quick()))
 		}
 	}
 
